@@ -22,7 +22,7 @@ fn base_cfg(tier: Tier, index: u64) -> HistCfg {
     w.flush = 1;
     w.bulk = 1;
     w.stats = 1;
-    HistCfg {
+    let mut c = HistCfg {
         kts: Kt::ALL.to_vec(),
         key: if index % 9 == 0 { KeyProfile::Long } else { KeyProfile::Medium },
         n_keys: 1..=50,
@@ -43,7 +43,16 @@ fn base_cfg(tier: Tier, index: u64) -> HistCfg {
             ..Default::default()
         },
         target_pct: 0,
+    };
+    // every 12th case: hundreds of keys, so that the tiny tables of the tuple carry chains
+    // of several hundred entries
+    if index % 12 == 5 {
+        make_dense(&mut c, tier == Tier::Thorough);
+        c.max_buckets = 65536;
+        c.ops.w.iter = 1;
+        c.ops.w.stats = 0;
     }
+    c
 }
 
 fn strategy(tier: Tier, index: u64) -> BoxedStrategy<C07Case> {
@@ -118,6 +127,7 @@ fn run_c07(c: &C07Case, w: &WCtx) -> Result<Report, Failure> {
             let files = crate::exec::read_files(&ctx.dir, "m")
                 .map_err(|e| Failure::new("infra", None, format!("read files: {e}")))?;
             let d = crate::decoder::decode(h.maps[0].kt, &files[0], &files[1], &files[2]);
+            // (the table file's header is the same under every feature set)
             if d.n_buckets != expect_n {
                 return Err(Failure::new(
                     "mismatch",
